@@ -22,6 +22,7 @@ pub fn run(args: &[String]) -> i32 {
             "finish" => s.dbg.step_out().map_err(|e| e.to_string()),
             "stepi" => s.dbg.stepi().map_err(|e| e.to_string()),
             "cont" => s.dbg.continue_debugee().map_err(|e| e.to_string()),
+            b if b.starts_with("bf") => s.dbg.set_breakpoint_at_fn(&b[2..]).map(|v| println!("   views: {:?}", v.iter().map(|x| format!("{:?}", x.addr)).collect::<Vec<_>>())).map_err(|e| e.to_string()),
             b if b.starts_with('b') => s.dbg.set_breakpoint_at_line(&name, b[1..].parse().unwrap()).map(|_| ()).map_err(|e| e.to_string()),
             _ => Err("?".into()),
         };
